@@ -121,6 +121,8 @@ def normalise_program(trees: Dict[str, ast.Module], pkgs: Set[str]) -> None:
     for m, t in trees.items():
         if not (".tests" in m or m.endswith("tests")):
             ho.empty_yield_from(t)
+            ho.inline_single_use_genexps(t)
+            ho.genexp_for_loops(t)
             ho.double_negation(t)
             ho.split_tuple_assign(t)
             ho.iterator_aliases(t)
